@@ -1,6 +1,8 @@
 /* C05: condition variables -- gate pattern.
  * MODE 0: 1 waiter + signaller(signal)       MODE 1: 1 waiter + signaller(broadcast)
- * MODE 2: 2 waiters + broadcaster            MODE 3: 2 waiters + signaller doing two signals */
+ * MODE 2: 2 waiters + broadcaster            MODE 3: 2 waiters + signaller doing two signals
+ * MODE 4: a sleeper is already queued on the condition variable; T0 signals while T1 (another waker in the middle of its own
+ *         operation) momentarily holds the REAL spin lock of the sleep queue: the signal must still reach the sleeper */
 #ifndef VN
 #define VN 2
 #endif
@@ -15,6 +17,9 @@ void verif_init(void){
   verif_model_init();
   myth_mutex_init_body(&M, 0);
   myth_cond_init_body(&C, 0);
+#if MODE == 4
+  verif_ctx_saved[2] = 1; myth_sleep_queue_enq_th(C.sleep_q, &TD2);     /* thread 2 sleeps on the condition variable */
+#endif
 }
 static inline void waiter(int me){
   myth_mutex_lock_body(&M);
@@ -43,7 +48,11 @@ static inline void signaller(int me){
   holder = -1;
   myth_mutex_unlock_body(&M);
 }
-#if VN == 2
+#if MODE == 4
+void t0(void){ myth_cond_signal_body(&C); }
+void t1(void){ myth_spin_lock_body(C.sleep_q->ilock); myth_spin_unlock_body(C.sleep_q->ilock); }
+void t2(void){ verif_park(&verif_wake[2]); verif_after_resume(2); passed[2] = 1; }
+#elif VN == 2
 void t0(void){ waiter(0); }
 void t1(void){ signaller(1); }
 #else
@@ -54,9 +63,15 @@ void t2(void){ signaller(2); }
 void verif_final(void){
   /* a missed signal/broadcast is exactly a deadlock here (reported by the scheduler verdict) */
   if (verif_all_done()) {
+#if MODE != 4
     verif_check(M.state == 0 && M.sleep_q->head == 0, "C05 mutex free and no sleeper at the end");
+#endif
     verif_check(C.sleep_q->head == 0, "C05 nobody left on the condition variable");
+#if MODE == 4
+    verif_check(passed[2] == 1, "C05 signal resumes a thread blocked at that moment");
+#else
     verif_check(passed[0] == 1, "C05 waiter passed the gate");
+#endif
   }
   verif_witness(verif_all_done());
 }
